@@ -943,7 +943,12 @@ func (w *Worker) sliceOp(fr *Frame, x *ssa.Slice) Val {
 	return Slice{obj, off + l*stride, h - l, m - l, stride}
 }
 
-const maxAlloc = 1 << 47
+// runtime.makeslice panics when len<0, len>cap or len*elemsize exceeds maxAlloc (2^48 on
+// linux/amd64); anything smaller is attempted.
+const maxAlloc = 1 << 48
+
+// engineAllocCap: allocations of more elements than this are not followed (stated bound).
+const engineAllocCap = 1 << 22
 
 func (w *Worker) makeSlice(x *ssa.MakeSlice, ln, cp *Term, lt types.Type) Val {
 	ts := w.ts
@@ -951,7 +956,13 @@ func (w *Worker) makeSlice(x *ssa.MakeSlice, ln, cp *Term, lt types.Type) Val {
 	cp = w.idx64(cp, x.Cap.Type())
 	elem := x.Type().Underlying().(*types.Slice).Elem()
 	// runtime.makeslice panics if len<0, len>cap, or size overflows / exceeds max alloc
-	limit := uint64(maxAlloc)
+	es := uint64(8)
+	if wd, _, ok := intType(elem); ok {
+		es = uint64(wd / 8)
+	} else if w.leafCount(elem) > 1 {
+		es = 8 * uint64(w.leafCount(elem))
+	}
+	limit := uint64(maxAlloc) / es
 	bad := ts.Or(ts.Not(ts.Cmp(OUle, ln, cp)), ts.Not(ts.Cmp(OUle, cp, ts.Const(64, limit))))
 	if bad.isTrue() {
 		w.goPanic("makeslice", "makeslice: len out of range")
@@ -959,10 +970,22 @@ func (w *Worker) makeSlice(x *ssa.MakeSlice, ln, cp *Term, lt types.Type) Val {
 	if !bad.isFalse() {
 		w.oblige(bad, "makeslice", "makeslice: len out of range")
 	}
+	if !cp.IsConst() {
+		// engine bound: do not follow allocations above engineAllocCap elements
+		big := ts.Cmp(OUlt, ts.Const(64, engineAllocCap), cp)
+		if !w.inPrefix() {
+			w.ensureModel()
+			if w.evalBool(big) || w.sol.Check(big) {
+				w.notes["allocation of more than 4Mi elements not followed (engine bound) in "+shortFn(w.libSite())] = true
+			}
+		}
+		w.assume(ts.Not(big))
+	}
 	l := int(w.concretize(ln, "make length"))
 	c := int(w.concretize(cp, "make capacity"))
-	if c > 1<<24 {
-		panic(engineError{fmt.Sprintf("make of %d elements too large for the engine", c)})
+	if c > engineAllocCap {
+		w.notes["allocation of more than 4Mi elements not followed (engine bound) in "+shortFn(w.libSite())] = true
+		panic(pathEnd{"alloc-bound"})
 	}
 	o := w.allocElems(elem, c)
 	return Slice{o.ID, 0, l, c, w.leafCount(elem)}
